@@ -95,7 +95,7 @@ def write_parquet(path, shift=0):
     if os.path.exists(path):
         shutil.rmtree(path)
     os.makedirs(path)
-    for k, (i, j) in enumerate(((0, 15), (15, 30), (30, 45), (45, 60))):
+    for k, (i, j) in enumerate(((0, 5), (5, 30), (30, 40), (40, 60))):  # uneven files: size order differs from name order
         pdf.iloc[i:j].to_parquet(os.path.join(path, f"part.{k}.parquet"), compression=None)
     return pdf
 
@@ -133,6 +133,72 @@ def pool(pqdir):
     return P
 
 
+def pool_scripted(pqdir):
+    """Parquet queries with default arguments (no statistics in the cached plan), used by the scripted sessions."""
+    import dask_expr as dx
+
+    return {
+        "pq_fsspec_default": lambda: dx.read_parquet(pqdir, filesystem="fsspec"),
+        "pq_fsspec_default_x": lambda: dx.read_parquet(pqdir, filesystem="fsspec")[["x"]],
+        "pq_fsspec_part1_x": lambda: dx.read_parquet(pqdir, filesystem="fsspec").partitions[1][["x"]],
+        "pq_fsspec_calc": lambda: dx.read_parquet(pqdir, filesystem="fsspec", calculate_divisions=True),
+        "pq_arrow_default": lambda: dx.read_parquet(pqdir, filesystem="arrow"),
+        "pq_arrow_default_x": lambda: dx.read_parquet(pqdir, filesystem="arrow")[["x"]],
+        "pq_arrow_default_sum": lambda: dx.read_parquet(pqdir, filesystem="arrow").x.sum(),
+        "pq_arrow_part1_x": lambda: dx.read_parquet(pqdir, filesystem="arrow").partitions[1][["x"]],
+        "pq_arrow_calc": lambda: dx.read_parquet(pqdir, filesystem="arrow", calculate_divisions=True),
+    }
+
+
+SCRIPTS = {
+    "subset-length-then-full-length(fsspec)": ["pq_fsspec_part1_x", "pq_fsspec_default", "pq_fsspec_default_x", "pq_fsspec_calc"],
+    "full-then-subset(fsspec)": ["pq_fsspec_default_x", "pq_fsspec_part1_x", "pq_fsspec_default"],
+    "plain-peek-then-calculate-divisions(fsspec)": ["pq_fsspec_default", "pq_fsspec_calc", "pq_fsspec_default"],
+    "aggregate-then-length(arrow)": ["pq_arrow_default_sum", "pq_arrow_default", "pq_arrow_default_x", "pq_arrow_calc"],
+    "subset-length-then-full-length(arrow)": ["pq_arrow_part1_x", "pq_arrow_default", "pq_arrow_default_x"],
+    "plain-peek-then-calculate-divisions(arrow)": ["pq_arrow_default", "pq_arrow_calc", "pq_arrow_default_sum"],
+}
+
+
+def scripted_case(case, common, out):
+    """Fixed short parquet sessions: every observation equals the same query alone in a fresh interpreter."""
+    from vf.rt.pool import bump, viol
+
+    sname = case
+    tmp = tempfile.mkdtemp(prefix="verif_c15p_")
+    try:
+        pqdir = os.path.join(tmp, "pq")
+        write_parquet(pqdir, 0)
+        names = SCRIPTS[sname]
+        base = baseline(pqdir, sorted(set(names)), poolfn="pool_scripted")
+        P = pool_scripted(pqdir)
+        hist = []
+        with warnings.catch_warnings():
+            warnings.simplefilter("ignore")
+            for n in names:
+                hist.append(n)
+                try:
+                    got = observe(P[n]())
+                except Exception as ex:
+                    viol(out, "C15.R.scripted:raises-depending-on-history", f"script={sname}|query={n}|history={'>'.join(hist)}", f"{type(ex).__name__}: {str(ex)[:160]}", {"kind": "call", "module": "vf.props.C15", "func": "replay_script", "args": {"name": sname}})
+                    continue
+                bump(out, "C15.R.scripted:observation==fresh-interpreter", f"{sname}|{len(hist)}", rule="fixed parquet sessions (subset before full, aggregate before length, plain read before calculate_divisions, both readers, uneven files): each observation against the same query alone in a fresh interpreter")
+                for field in ("divisions", "logical_divisions", "len", "nrows", "result"):
+                    if got.get(field) != base[n].get(field):
+                        viol(out, f"C15.R.scripted:{field}-depends-on-history", f"script={sname}|query={n}|history={'>'.join(hist)}", f"fresh interpreter: {str(base[n].get(field))[:120]}; inside the session: {str(got.get(field))[:120]}", {"kind": "call", "module": "vf.props.C15", "func": "replay_script", "args": {"name": sname}})
+                        break
+    finally:
+        shutil.rmtree(tmp, ignore_errors=True)
+
+
+def replay_script(name):
+    out = {"counts": {}, "violations": [], "samples": [], "errors": [], "notes": {}}
+    scripted_case(name, {}, out)
+    for v in out["violations"]:
+        print(v["contract"], "|", v["signature"], "|", v["detail"][:300])
+    return bool(out["violations"])
+
+
 def observe(q):
     """What a user can see of a query: plan name, divisions, len, result."""
     from vf.rt import den as D
@@ -154,15 +220,15 @@ def observe(q):
         return rec
 
 
-def baseline(pqdir, names):
+def baseline(pqdir, names, poolfn="pool"):
     """Each query alone in a fresh interpreter."""
     out = {}
     for chunk in [names[i : i + 1] for i in range(len(names))]:
         code = (
             "import sys, json, warnings; warnings.filterwarnings('ignore'); sys.path.insert(0, %r); sys.path.append(%r)\n"
-            "from vf.rt.pool import _init; _init()\nfrom vf.props import C15\nP = C15.pool(%r)\n"
+            "from vf.rt.pool import _init; _init()\nfrom vf.props import C15\nP = getattr(C15, %r)(%r)\n"
             "print('@@' + json.dumps({n: C15.observe(P[n]()) for n in %r}))\n"
-        ) % (VERIF, os.path.join(VERIF, ".overlay"), pqdir, chunk)
+        ) % (VERIF, os.path.join(VERIF, ".overlay"), poolfn, pqdir, chunk)
         r = subprocess.run([sys.executable, "-W", "ignore", "-c", code], capture_output=True, text=True, timeout=600)
         got = None
         for line in r.stdout.splitlines():
@@ -290,6 +356,7 @@ def run(run):
         common = {"pqdir": pqdir, "names": names, "base": base, "base2": base2}
         # plan names of parquet queries contain the path: give every session the SAME path, sequentially per worker
         run_cases(run, "vf.props.C15", "session_case_samepath", [(s, 90 if run.tier == "quick" else 160) for s in seeds], common, chunk=1)
+        run_cases(run, "vf.props.C15", "scripted_case", list(SCRIPTS), {}, chunk=1)
     finally:
         shutil.rmtree(tmp, ignore_errors=True)
     run.assume("fault sequences are only PRESENT in the workload (a failing user function, a dataset rewrite), not enumerated; garbage collection of the Expr._instances weak table is exercised, not proved")
